@@ -9,7 +9,7 @@ every content (ordering of values), randomness, progress under continuous input.
 import ast
 
 from ..model import dotted, unparse, norm, walk_no_nested, loop_exits, loop_of
-from ..rulelib import Ctx, short, reaching_defs, value_assigned
+from ..rulelib import Ctx, short, reaching_defs, value_assigned, nodes_calling
 from ..cachemodel import CacheModel
 from .c02 import rule_lockset
 
@@ -124,17 +124,15 @@ def run(check):
   r_ps = check.rule('R-C17-pass-shape', 3, 'naive/sorted/timesorted: full snapshot per pass, drained completely')
   gens = []
   for sc in subs:
-    init = sc.methods.get('__init__')
-    if init is None:
-      continue
+    # the generator(s) a strategy class owns: a generator method, or a generator function nested in one of its methods
     for f in sc.module.all_functions():
-      if f.parent_fn is init and not isinstance(f.node, ast.Lambda) and any(
+      if f.cls is sc and not isinstance(f.node, ast.Lambda) and any(
           isinstance(x, ast.Yield) for x in walk_no_nested(f.node, include_self=False)):
         gens.append((sc, f))
   for sc, gen in gens:
     check.analysed(gen)
     problems = _pass_shape(gen)
-    ci = sc.methods.get('choose_item')
+    ci = repo.find_method(sc, 'choose_item')
     uses_queue = ci is not None and any(isinstance(c, ast.Call) and dotted(c.func) == 'next' and c.args and
                                         (dotted(c.args[0]) or '').startswith('self.')
                                         for c in ast.walk(ci.node))
@@ -178,8 +176,15 @@ def run(check):
           if isinstance(cond, ast.Compare) and len(cond.ops) == 1 and isinstance(cond.ops[0], (ast.Gt, ast.GtE)) and \
              isinstance(cond.left, ast.BinOp) and isinstance(cond.left.op, ast.Sub):
             sub = cond.left.right
-            if isinstance(sub, ast.Subscript) and isinstance(sub.slice, ast.Constant) and \
-               isinstance(sub.slice.value, int) and 0 <= sub.slice.value < len(layout) and layout[sub.slice.value] == 'min':
+            idx = None
+            tgt = [g for g in n.generators if cond in g.ifs][0].target
+            if isinstance(sub, ast.Subscript) and isinstance(sub.slice, ast.Constant) and isinstance(sub.slice.value, int) and \
+               isinstance(sub.value, ast.Name) and isinstance(tgt, ast.Name) and sub.value.id == tgt.id:
+              idx = sub.slice.value
+            elif isinstance(sub, ast.Name) and isinstance(tgt, (ast.Tuple, ast.List)):
+              pos = [i for i, e in enumerate(tgt.elts) if isinstance(e, ast.Name) and e.id == sub.id]
+              idx = pos[0] if len(pos) == 1 and len(tgt.elts) == len(layout) else None
+            if idx is not None and 0 <= idx < len(layout) and layout[idx] == 'min':
               # the minuend must be the current time
               ok = True
           if ok:
@@ -199,28 +204,47 @@ def run(check):
 
   # ------------------------------------------------------------------ selection
   r_sel = check.rule('R-C17-selection', 6, 'every strategy name selects its own DrainStrategy subclass')
+  from ..paths import PathExec
+  from ..symeval import show
   mc = cx.fn('carbon.cache', 'MetricCache')
-  table = {}
-  for n in walk_no_nested(mc.node, include_self=False):
-    if isinstance(n, ast.If) and isinstance(n.test, ast.Compare) and 'CACHE_WRITE_STRATEGY' in unparse(n.test.left) and \
-       isinstance(n.test.comparators[0], ast.Constant):
-      key = n.test.comparators[0].value
-      for s in n.body:
-        if isinstance(s, ast.Assign) and isinstance(s.value, ast.Name):
-          table[key] = s.value.id
-  seen = set()
-  for name in STRATEGY_NAMES:
-    cname = table.get(name)
+  gmc = cx.cfg(mc)
+  ctor = nodes_calling(gmc, lambda c: any(via == 'ctor' and callee.cls is cm.cls for callee, via in cx.callees(c, mc)[0]) or
+                       (isinstance(c.func, ast.Name) and c.func.id == cm.cls.name))
+  if not ctor:
+    r_sel.cannot_decide('MetricCache() does not construct %s' % cm.cls.name)
+  seen = {}
+  SETTING = ('attr', ('param', 'settings'), 'CACHE_WRITE_STRATEGY')
+  for name in STRATEGY_NAMES if ctor else ():
+    px = PathExec(cx, mc, unroll=0, follow_exceptions=False, assume={SETTING: ('const', name)})
+    chosen = set()
+    for hit in px.run(ctor):
+      call = [c for c in gmc.calls(hit.node) if (isinstance(c.func, ast.Name) and c.func.id == cm.cls.name) or
+              any(via == 'ctor' for _, via in cx.callees(c, mc)[0])][0]
+      chosen.add(hit.term(call.args[0], px) if call.args else ('const', None))
+    names = {t[1] if isinstance(t, tuple) and t[0] == 'param' else None for t in chosen}
+    cname = next(iter(names)) if len(names) == 1 else None
     cls = next((c for c in subs if c.name == cname), None)
     if cls is None:
-      r_sel.violate('strategy %s' % name, mc, None, 'CACHE_WRITE_STRATEGY=%s does not select a DrainStrategy subclass '
-                    '(got %r)' % (name, cname), construct='strategy %s' % name)
-    elif cname in seen or not cname.lower().startswith(name) or 'choose_item' not in cls.methods:
+      r_sel.violate('strategy %s' % name, mc, None, 'CACHE_WRITE_STRATEGY=%s does not select one DrainStrategy subclass '
+                    '(got %s)' % (name, sorted(show(t) for t in chosen)), construct='strategy %s' % name)
+      continue
+    owner = None
+    for k in repo.mro(cls):
+      if not isinstance(k, tuple) and 'choose_item' in k.methods:
+        owner = k
+        break
+    if cname in seen.values() or owner is None or owner is base:
       r_sel.violate('strategy %s' % name, mc, None, 'CACHE_WRITE_STRATEGY=%s selects %s, which is not its own strategy '
                     'class overriding choose_item' % (name, cname), construct='strategy %s' % name)
     else:
-      seen.add(cname)
+      seen[name] = cname
       r_sel.ok('%s -> %s' % (name, cname), mc.loc())
+  # a name that is not a strategy falls back to the base class (documented default behaviour), never to another strategy
+  if ctor:
+    px = PathExec(cx, mc, unroll=0, follow_exceptions=False, assume={SETTING: ('const', '<no such strategy>')})
+    other = {hit.term([c for c in gmc.calls(hit.node)][0].args[0], px) for hit in px.run(ctor) if [c for c in gmc.calls(hit.node)][0].args}
+    if other and other != {('param', base.name)}:
+      check.notes.append('an unknown CACHE_WRITE_STRATEGY selects %s' % sorted(show(t) for t in other))
 
   # ------------------------------------------------------------------ bookkeeping agreement (store vs choose_item)
   r_bk = check.rule('R-C17-bookkeeping', 1, 'state that choose_item uses to locate a metric is re-established by every store')
